@@ -78,20 +78,33 @@ impl<const N: usize> Sodg<N> {
                         b.1.push(v1);
                         ours = b.0;
                         vtx1.branch = ours;
+                        if vtx1.persistence == Persistence::Stored {
+                            *self.stores.get_mut(ours).unwrap() += 1;
+                        }
                         break;
                     }
                 }
-                self.vertices.get_mut(v2).unwrap().branch = ours;
+                let vtx2 = self.vertices.get_mut(v2).unwrap();
+                vtx2.branch = ours;
                 self.branches.get_mut(ours).unwrap().push(v2);
+                if vtx2.persistence == Persistence::Stored {
+                    *self.stores.get_mut(ours).unwrap() += 1;
+                }
             } else {
                 vtx1.branch = theirs;
                 self.branches.get_mut(theirs).unwrap().push(v1);
+                if vtx1.persistence == Persistence::Stored {
+                    *self.stores.get_mut(theirs).unwrap() += 1;
+                }
             }
         } else {
             let vtx2 = self.vertices.get_mut(v2).unwrap();
             if vtx2.branch == BRANCH_STATIC {
                 vtx2.branch = ours;
                 self.branches.get_mut(ours).unwrap().push(v2);
+                if vtx2.persistence == Persistence::Stored {
+                    *self.stores.get_mut(ours).unwrap() += 1;
+                }
             }
         }
         #[cfg(debug_assertions)]
@@ -125,9 +138,12 @@ impl<const N: usize> Sodg<N> {
     #[inline]
     pub fn put(&mut self, v: usize, d: &Hex) {
         let vtx = self.vertices.get_mut(v).unwrap();
+        let fresh = vtx.persistence != Persistence::Stored;
         vtx.persistence = Persistence::Stored;
         vtx.data = d.clone();
-        *self.stores.get_mut(vtx.branch).unwrap() += 1;
+        if fresh && vtx.branch != BRANCH_STATIC {
+            *self.stores.get_mut(vtx.branch).unwrap() += 1;
+        }
         #[cfg(debug_assertions)]
         trace!("#put: data of ν{v} set to {d}");
     }
@@ -166,25 +182,27 @@ impl<const N: usize> Sodg<N> {
                 let d = vtx.data.clone();
                 vtx.persistence = Persistence::Taken;
                 let branch = vtx.branch;
-                let s = self.stores.get_mut(branch).unwrap();
-                *s -= 1;
-                if *s == 0 {
-                    let members = self.branches.get_mut(branch).unwrap();
-                    for v in members.into_iter() {
-                        self.vertices.get_mut(v).unwrap().branch = BRANCH_NONE;
+                if branch != BRANCH_STATIC {
+                    let s = self.stores.get_mut(branch).unwrap();
+                    *s -= 1;
+                    if *s == 0 {
+                        let members = self.branches.get_mut(branch).unwrap();
+                        for v in members.into_iter() {
+                            self.vertices.get_mut(v).unwrap().branch = BRANCH_NONE;
+                        }
+                        #[cfg(debug_assertions)]
+                        trace!(
+                            "#data: branch no.{} destroyed {} vertices as garbage: {}",
+                            branch,
+                            members.len(),
+                            members
+                                .into_iter()
+                                .map(|v| format!("ν{v}"))
+                                .collect::<Vec<String>>()
+                                .join(", ")
+                        );
+                        members.clear();
                     }
-                    #[cfg(debug_assertions)]
-                    trace!(
-                        "#data: branch no.{} destroyed {} vertices as garbage: {}",
-                        branch,
-                        members.len(),
-                        members
-                            .into_iter()
-                            .map(|v| format!("ν{v}"))
-                            .collect::<Vec<String>>()
-                            .join(", ")
-                    );
-                    members.clear();
                 }
                 #[cfg(debug_assertions)]
                 trace!("#data: data of ν{v} retrieved");
